@@ -378,6 +378,12 @@ fn c08(rng: &mut Rng, tier: &str, idx: usize) -> Case {
     if fv >= 2 {
         c.op(format!("verbyte {}", hex(&bytes)));
         c.stat("version_byte_values", 256);
+        // the body without the release date behind every header
+        c.op(format!("hdrbyte {}", hex(&bytes[8..])));
+    } else {
+        // a header-less v1 body behind "HPO" + every version byte
+        c.op(format!("hdrbyte {}", hex(&bytes)));
+        c.stat("version_byte_values", 256);
     }
     c.stat("file_bytes", bytes.len() as u64);
     c.stat("truncation_offsets", bytes.len() as u64);
